@@ -26,6 +26,17 @@ Theorem C11_forced_cancels_running : ∀ s s' id j,
   j_cancel_req j = true.
 Proof. exact shutdown_force_requests. Qed.
 
+(** the deadline counts as long as ANY job runs, whether or not a reload has meanwhile removed its pipeline from the
+    definitions: the forced branch is then enabled, and an unforced Shutdown cannot return *)
+Theorem C11_force_enabled_while_any_job_runs : ∀ s id j,
+  st_shutg s = Some false → get_job s id = Some j → j_removed j = false → is_running j = true →
+  ∃ s', do_shutdown_force s = Some s'.
+Proof. exact shutdown_force_enabled. Qed.
+Theorem C11_graceful_waits_for_every_running_job : ∀ s id j,
+  st_shutg s = Some false → get_job s id = Some j → j_removed j = false → is_running j = true →
+  do_shutdown_return s = None.
+Proof. exact shutdown_no_return_while_running. Qed.
+
 (** Shutdown can only return when nothing is left: then no job is running or waiting and no scheduler exists ... *)
 Theorem C11_after_return_terminal : ∀ s s' id j,
   reach s → do_shutdown_return s = Some s' → get_job s' id = Some j → j_removed j = false →
@@ -81,3 +92,5 @@ Print Assumptions C11_save_writes_view.
 Print Assumptions C11_change_not_forgotten.
 Print Assumptions C11_loop_not_stuck.
 Print Assumptions C11_change_reaches_store.
+Print Assumptions C11_force_enabled_while_any_job_runs.
+Print Assumptions C11_graceful_waits_for_every_running_job.
